@@ -52,5 +52,14 @@ def run(ctx):
         rs = rng.shuffle(list(range(m)))[:k]
         cs = rng.shuffle(list(range(n)))[:k]
         lines.append("%d %s %d %s %d %s" % (q, mat_line(M, m, n), k, " ".join(map(str, rs)), k, " ".join(map(str, cs))))
+    # dense matrices with long pivot sequences (aggregated values grow with every pivot)
+    for _ in range(1500 if ctx.quick else 30000):
+        q = rng.choice([2, 3, 3])
+        m, n = 4 + rng.below(5), 4 + rng.below(5)
+        M = rand_matrix(rng, m, n, (0, 1) if q == 2 else (-1, 1, -1, 1, 0), 9 + rng.below(2), 10)
+        k = 3 + rng.below(min(m, n) - 2)
+        rs = rng.shuffle(list(range(m)))[:k]
+        cs = rng.shuffle(list(range(n)))[:k]
+        lines.append("%d %s %d %s %d %s" % (q, mat_line(M, m, n), k, " ".join(map(str, rs)), k, " ".join(map(str, cs))))
     ctx.stream("pivot", lines, "pivots: exhaustive small + random", describe=lambda c: CODES.get(c, str(c)),
                nontrivial=lambda l, r: " 1 " in r, keyfn=keyfn)
